@@ -28,6 +28,12 @@ pub fn ids() -> Vec<&'static str> {
 }
 
 pub fn property(id: &str) -> Option<Property> {
+    let mut p = property_base(id)?;
+    p.subs.extend(crate::fuzzing::subs_for(p.id));
+    Some(p)
+}
+
+fn property_base(id: &str) -> Option<Property> {
     Some(match id {
         "C01" => c01::property(),
         "C02" => c02::property(),
